@@ -13,6 +13,11 @@ import (
 )
 
 func (core *JApiCore) buildCatalog() *jerr.JApiError {
+	if len(core.directivesWithPastes) == 0 {
+		// Nothing but MACRO definitions, comments or an empty file: the JSIGHT directive is missing.
+		return core.japiError(jerr.DirectiveJSIGHTShouldBeTheFirst, 0)
+	}
+
 	if len(core.directivesWithPastes) != 0 && core.directivesWithPastes[0].Type() != directive.Jsight {
 		return core.directivesWithPastes[0].KeywordError(jerr.DirectiveJSIGHTShouldBeTheFirst)
 	}
